@@ -285,24 +285,33 @@ def boundsFail (axisTest : Int → Rat → Rat → Except ErrKind Bool) (shape :
 
 /-- `VolumeToVolumeTransformer(from, to, round_output, check_bounds)(indices)`:
 `self._affine = to.inverse_affine @ from.affine`, applied to every point, rounded if asked,
-bounds check on what is returned -/
-def v2v (fromA toA : Aff) (toShape : Ax → Int) (roundOut check : Bool) (pts : List V3) : Except ErrKind (List V3) := do
-  let inv ← toA.inv
-  let M := inv.comp fromA
-  let out := pts.map (fun p => if roundOut then roundV (M.apply p) else M.apply p)
-  if check then
-    let f ← boundsFail v2vBoundsAxis toShape out
-    if f then throw .value
-  pure out
+bounds check (ValueError) on what is returned -/
+def v2v (fromA toA : Aff) (toShape : Ax → Int) (roundOut check : Bool) (pts : List V3) : Except ErrKind (List V3) :=
+  match toA.inv with
+  | .error e => .error e
+  | .ok inv =>
+    let M := inv.comp fromA
+    let out := pts.map (fun p => if roundOut then roundV (M.apply p) else M.apply p)
+    if check then
+      match boundsFail v2vBoundsAxis toShape out with
+      | .error e => .error e
+      | .ok true => .error .value
+      | .ok false => .ok out
+    else .ok out
 
-/-- `map_reference_to_indices(coordinates, round_output, check_bounds)`: bounds check on the
-unrounded indices, then rounding -/
-def refToIdx (A : Aff) (shape : Ax → Int) (roundOut check : Bool) (pts : List V3) : Except ErrKind (List V3) := do
-  let inv ← A.inv
-  let out := pts.map inv.apply
-  if check then
-    let f ← boundsFail refBoundsAxis shape out
-    if f then throw .runtime
-  pure (if roundOut then out.map roundV else out)
+/-- `map_reference_to_indices(coordinates, round_output, check_bounds)`: bounds check
+(RuntimeError) on the unrounded indices, then rounding -/
+def refToIdx (A : Aff) (shape : Ax → Int) (roundOut check : Bool) (pts : List V3) : Except ErrKind (List V3) :=
+  match A.inv with
+  | .error e => .error e
+  | .ok inv =>
+    let out := pts.map inv.apply
+    let res := if roundOut then out.map roundV else out
+    if check then
+      match boundsFail refBoundsAxis shape out with
+      | .error e => .error e
+      | .ok true => .error .runtime
+      | .ok false => .ok res
+    else .ok res
 
 end HdVerif.Match
